@@ -4,7 +4,7 @@ import json
 
 NOT_BUILT = "check not built yet (work in progress; see DESIGN.md for the plan)"
 NA = {
-    "C16": "not applicable to solver-based checking here: AES-NI/CLMUL are x86 vector intrinsics (no IR-level semantics in LLSYM and no specification to compare with but another implementation), CLMUL-vs-portable GHASH is a GF(2^128) multiplier equivalence that z3/cvc5 cannot decide even on 6-bit windows (measured), GMP is a binary library behind ctypes and the custom-C back-end is multi-limb Montgomery arithmetic (symbolic x symbolic 64-bit products); differential testing would be a different technique (DESIGN.md s5)",
+    "C16": "not applicable to solver-based checking here: AES-NI/CLMUL are x86 vector intrinsics (no IR-level semantics in LLSYM and no specification to compare with but another implementation), CLMUL-vs-portable GHASH is a GF(2^128) multiplier equivalence that z3/cvc5 cannot decide even on 6-bit windows (measured), GMP is a binary library behind ctypes and the custom-C back-end is multi-limb Montgomery arithmetic (symbolic x symbolic 64-bit products); differential testing would be a different technique (DESIGN.md s5).  The decidable fragments are decided elsewhere, each against the mathematical definition rather than against another implementation: the pure-Python integer back-end and the glue of the custom-C back-end at reduced width, and the C byte/word conversions and linear kernels (C14, C06); that is far less than this property states, so it is not claimed",
 }
 CHECKS = {'C01': {'category': 'other',
          'engine': 'PYSYM',
